@@ -8,17 +8,18 @@ Ltac Zify.zify_post_hook ::= Z.to_euclidean_division_equations.
 
 (* handle_data never crashes for reachable simulation parameters, and keeps them reachable *)
 Lemma handle_data_ok dst src m ver draws : sim_ok dst ->
-  let '(dst', d, _) := handle_data dst src m (trans m ver) draws in sim_ok dst' /\ d <> DCrash.
+  let '(dst', d, _) := handle_data dst src m (trans m ver) draws in sim_ok dst' /\ d <> DCrash /\ s_delay dst' = s_delay dst.
 Proof.
   intros Hok. destruct (s_muted dst) eqn:Em.
-  - rewrite (handle_suppressed dst src m (trans m ver) draws (or_introl Em)). split; [exact Hok|].
+  - rewrite (handle_suppressed dst src m (trans m ver) draws (or_introl Em)). split; [exact Hok|]. split; [|reflexivity].
     destruct (r_ver (trans m ver) <? 1); [discriminate|]. apply send_out_no_crash, validate_rx_cases.
   - destruct (t_burst m) as [bits|] eqn:Eb.
     + pose proof (handle_one dst src m bits ver draws Hok Em Eb) as H.
       destruct (handle_data dst src m (trans m ver) draws) as [[dst1 d] dr]. destruct H as [E1 [_ E3]].
-      split; [rewrite E1; apply sim_ok_drop, Hok|exact E3].
+      split; [rewrite E1; apply sim_ok_drop, Hok|split; [exact E3|]].
+      rewrite E1. unfold sim_drop. destruct (s_drop dst =? 0); [reflexivity|]. destruct (_ mod s_period dst =? 0); reflexivity.
     + assert (Hn : r_nope (trans m ver) = true) by (unfold trans; cbn [r_nope]; rewrite Eb; reflexivity).
-      rewrite (handle_suppressed dst src m (trans m ver) draws (or_intror Hn)). split; [exact Hok|].
+      rewrite (handle_suppressed dst src m (trans m ver) draws (or_intror Hn)). split; [exact Hok|]. split; [|reflexivity].
       destruct (r_ver (trans m ver) <? 1); [discriminate|]. apply send_out_no_crash, validate_rx_cases.
 Qed.
 
@@ -49,7 +50,8 @@ Proof.
     destruct (rx_freq t fn) as [rf|] eqn:Ef; [|exfalso; exact (rx_freq_ok t fn (proj1 (proj2 Hwt)) Hfn Ef)].
     destruct (negb (opt_eqb rf txf)); [apply IH; [exact Hwr|constructor; assumption]|].
     pose proof (handle_data_ok (x_sim t) (x_sim src) m (x_ver t) draws (proj1 Hwt)) as Hh.
-    destruct (handle_data (x_sim t) (x_sim src) m (trans m (x_ver t)) draws) as [[s' d] dr']. destruct Hh as [Hs' Hd'].
+    destruct (handle_data (x_sim t) (x_sim src) m (trans m (x_ver t)) draws) as [[s' d] dr']. destruct Hh as [Hs' [Hd' Hdl]].
+    assert (Hdl' : s_delay s' <= 9223372036854) by (rewrite Hdl; exact (proj2 (proj2 (proj2 Hwt)))).
     destruct d as [o mm|mm|]; [| |congruence]; (apply IH; [exact Hwr|constructor; [apply wf_set_sim; assumption|exact Hd]]).
 Qed.
 
@@ -134,7 +136,7 @@ Proof.
   destruct (nth_error trxs i) as [t|] eqn:Et; [|auto].
   destruct (negb (x_run t)); [apply IH; assumption|].
   pose proof (nth_wf _ _ _ Hw Et) as Hwt.
-  pose proof (part_q_ok fn (x_q t) (proj2 (proj2 Hwt))) as Hp. destruct (part fn (x_q t)) as [[dr em] wt]. destruct Hp as [He Hwq].
+  pose proof (part_q_ok fn (x_q t) (proj1 (proj2 (proj2 Hwt)))) as Hp. destruct (part fn (x_q t)) as [[dr em] wt]. destruct Hp as [He Hwq].
   assert (Hw1 : Forall wf_trx (upd trxs i (fun t0 => set_q t0 wt))).
   { rewrite Forall_forall. intros u Hu. apply In_nth_error in Hu as [k Hk]. rewrite upd_nth in Hk. destruct (Nat.eqb i k) eqn:E.
     - apply Nat.eqb_eq in E. subst k. rewrite Et in Hk. cbn in Hk. injection Hk as <-. apply wf_set_q; assumption.
@@ -177,7 +179,7 @@ Proof.
   intros Hw Hb. unfold recv_data. destruct (parse_tx (firstn (Z.to_nat data_recv_size) data)) as [m| |] eqn:Ep; try (split; [exact Hw|split; [reflexivity|discriminate]]).
   destruct ((t_ver m =? x_ver t) && x_run t) eqn:Ec; [|split; [exact Hw|split; [reflexivity|discriminate]]].
   apply andb_prop in Ec as [Ev Er]. split.
-  - apply wf_set_q; [exact Hw|]. apply Forall_app. split; [exact (proj2 (proj2 Hw))|]. constructor; [|constructor].
+  - apply wf_set_q; [exact Hw|]. apply Forall_app. split; [exact (proj1 (proj2 (proj2 Hw)))|]. constructor; [|constructor].
     eapply parse_tx_fn_nonneg; [|exact Ep]. apply Forall_forall. intros x Hx. apply In_firstn in Hx. rewrite Forall_forall in Hb. apply Hb, Hx.
   - split; [discriminate|]. intros _. exists m. repeat split; auto. lia.
 Qed.
